@@ -387,7 +387,8 @@ pub fn run(cx: &mut Ctx) {
     }
 
     // constants
-    cx.case("TBL const maxsize", &Packet::MAX_SIZE.to_string());
+    // the `udp` feature selects the other MAX_SIZE constant
+    cx.case(if cfg!(feature = "udp") { "TBL const maxsizeudp" } else { "TBL const maxsize" }, &Packet::MAX_SIZE.to_string());
     let d = Header::new();
     cx.case(
         "TBL const header",
